@@ -30,7 +30,6 @@ import (
 	"github.com/datastax/go-cassandra-native-protocol/frame"
 	"github.com/datastax/go-cassandra-native-protocol/message"
 	"github.com/datastax/go-cassandra-native-protocol/primitive"
-	pierrec "github.com/pierrec/lz4/v4"
 )
 
 func init() {
@@ -61,12 +60,7 @@ func decompress(comp string, b []byte) ([]byte, error) {
 		if n == 0 {
 			return nil, nil
 		}
-		dst := make([]byte, n)
-		w, derr := pierrec.UncompressBlock(b[4:], dst)
-		if derr != nil {
-			return nil, derr
-		}
-		return dst[:w], nil
+		return lz4Reference(b[4:], n)
 	case "snappy":
 		err = snappy.Compressor{}.DecompressWithLength(bytes.NewReader(b), &out)
 	default:
@@ -154,6 +148,9 @@ func genForward(ctx *Ctx, prop string) {
 	seq := 0
 	maxVal := ctx.Scale(40, 4000)
 	nCases := ctx.Scale(900, 30000)
+	if os.Getenv("VH_ONLY_PIPELINED") != "" {
+		nCases = 0
+	}
 	for i := 0; i < nCases; i++ {
 		p := withList
 		if i%3 == 2 {
@@ -278,6 +275,9 @@ func genForward(ctx *Ctx, prop string) {
 		if flags.Contains(primitive.HeaderFlagCompressed) {
 			var err error
 			if logical, err = decompress(comp, sent[9:]); err != nil {
+				if os.Getenv("VH_DEBUG") != "" {
+					_ = os.WriteFile("/tmp/lz4plain.bin", encBody(flags.Remove(primitive.HeaderFlagCompressed)), 0o644)
+				}
 				panic(err)
 			}
 		}
@@ -508,7 +508,7 @@ func pipelinedLarge(ctx *Ctx, be *fb.Backend, p *fwProxy) {
 			panic(err)
 		}
 		if t, ok := conn.(*net.TCPConn); ok {
-			_ = t.SetReadBuffer(8192)
+			_ = t.SetReadBuffer(128 << 10) // not below one loopback segment (64 KiB): a smaller buffer stalls the TCP connection itself
 		}
 		_ = conn.SetDeadline(time.Now().Add(60 * time.Second))
 		_, _ = conn.Write(px.FrameBytes(byte(v), 0, 0, byte(primitive.OpCodeStartup), []byte{0, 1, 0, 11, 'C', 'Q', 'L', '_', 'V', 'E', 'R', 'S', 'I', 'O', 'N', 0, 5, '3', '.', '0', '.', '0'}))
@@ -538,6 +538,9 @@ func pipelinedLarge(ctx *Ctx, be *fb.Backend, p *fwProxy) {
 		for i := 0; i < n; i++ {
 			f, err := px.ReadFrame(conn)
 			if err != nil {
+				if os.Getenv("VH_DEBUG") != "" {
+					fmt.Fprintf(os.Stderr, "DEBUG pipelined: read %d of %d: %v\n", i, n, err)
+				}
 				break
 			}
 			got[f.Stream] = f
@@ -653,6 +656,61 @@ func pipelinedLargeRequests(ctx *Ctx, be *fb.Backend, p *fwProxy) {
 			ctx.Count(fmt.Sprintf("pipelined-large-request:attempts-%d", attempts))
 		}
 	}
+}
+
+// lz4Reference decodes an LZ4 block by the format specification, without optimisations (the harness's own decoder: the
+// reference library's is one of the things under test).
+func lz4Reference(src []byte, max int) ([]byte, error) {
+	var dst []byte
+	i := 0
+	length := func(n int) (int, error) {
+		if n == 15 {
+			for {
+				if i >= len(src) {
+					return 0, fmt.Errorf("lz4: short length")
+				}
+				b := src[i]
+				i++
+				n += int(b)
+				if b != 255 {
+					break
+				}
+			}
+		}
+		return n, nil
+	}
+	for i < len(src) {
+		tok := src[i]
+		i++
+		lit, err := length(int(tok >> 4))
+		if err != nil || i+lit > len(src) {
+			return nil, fmt.Errorf("lz4: literals beyond the input")
+		}
+		dst = append(dst, src[i:i+lit]...)
+		i += lit
+		if i == len(src) {
+			break
+		}
+		if i+2 > len(src) {
+			return nil, fmt.Errorf("lz4: short offset")
+		}
+		off := int(src[i]) | int(src[i+1])<<8
+		i += 2
+		if off == 0 || off > len(dst) {
+			return nil, fmt.Errorf("lz4: bad offset")
+		}
+		ml, err := length(int(tok & 15))
+		if err != nil {
+			return nil, err
+		}
+		for k := 0; k < ml+4; k++ {
+			dst = append(dst, dst[len(dst)-off])
+		}
+		if len(dst) > max {
+			return nil, fmt.Errorf("lz4: longer than the stated length")
+		}
+	}
+	return dst, nil
 }
 
 func md5Of(s string) []byte {
